@@ -278,7 +278,7 @@ func (c *Ctx) checkKeysGenerator() {
 func init() {
 	register("C20", Meta{
 		Explanation: "Structural necessary conditions for the Minter connector: (validate) Command.ValidateAndComplete returns nil only on paths that passed: a known type with that type's recipient check, a fee that parsed, fee >= 0, and fee < amount - amount/100; (counted-iff-valid) both block scanners (start-up resynchronisation and the relay loop) advance the event nonce / record a deposit for a send only under ValidateAndComplete == nil, recognise the same three event kinds with the same predicates (type and multisig address tests) and advance the same counters per kind; (cursor) in every scanner, at each persisted commit the cursor written is the block's height, or the height minus one only if no nonce counter advanced earlier in the same block iteration has been left un-restored; the resynchronisation scan derives its block windows from a start snapshot taken before the loop.",
-		NotDecided: []string{"equality of nonces across validators as such", "Minter node behaviour and API pagination", "the status-file fallback in LoadStatus", "claims lost between the hub transaction and the status commit"},
+		NotDecided:  []string{"equality of nonces across validators as such", "Minter node behaviour and API pagination", "the status-file fallback in LoadStatus", "claims lost between the hub transaction and the status commit"},
 		Assumptions: commonAssumptions,
 	}, checkC20)
 }
